@@ -668,6 +668,17 @@ theorem debugTest_of_canRemove (test : Expr) (body orelse : List Stmt) (h : canR
   · obtain ⟨c, rfl⟩ := isDebugName_eq _ h2; rfl
   · simp at h2
 
+/-- the documented spellings are tests of the flag -/
+theorem condE_of_isDebugTest (opt : Bool) (s : St) (c : Expr) (h : isDebugTest c = true) :
+    condE opt s c = some (.ok (.bool (!opt))) := by
+  unfold isDebugTest at h
+  split at h
+  · simp [condE, isDbgName]
+  · simp [condE, isDbgName, debugCmp, evalE, debugSense]
+  · simp [condE, isDbgName, debugCmp, evalE, debugSense]
+  · simp [condE, isDbgName, debugCmp, evalE, debugSense]
+  · simp at h
+
 theorem canRemoveDebug_noop : NoOpPred true canRemoveDebug where
   exec := by
     intro ft fuel s st h
@@ -676,7 +687,7 @@ theorem canRemoveDebug_noop : NoOpPred true canRemoveDebug where
     obtain ⟨ho, ht⟩ := debugTest_of_canRemove test body orelse h
     subst ho
     rw [exec1.eq_1]
-    simp [condE, ht, Val.truthy, execL_nil]
+    simp [condE_of_isDebugTest true s test ht, Val.truthy, execL_nil]
   notDef := by
     intro st h
     cases st <;> first | rfl | (simp [canRemoveDebug] at h; done)
